@@ -32,6 +32,8 @@ ALPHABET = "lifecycle menu (reduced) + push_stream / PUSH_PROMISE x parents {1,3
 BOUNDS = {"quick": "depth 6 per role", "thorough": "depth 8 per role (or time budget, reported)"}
 sb = H.stateless_block
 BAD_REQ = [h for h in H.REQ if h[0] != b":scheme"]
+# malformed in one respect only: a pseudo-header after a regular field - and that field is a cookie
+BAD_REQ2 = [h for h in H.REQ if h[0] != b":path"] + [(b"cookie", b"a=b"), (b":path", b"/")]
 PROMISED = [2, 4, 6, 3, 0]
 
 
@@ -60,13 +62,16 @@ class Spec(L.Spec):
             for p in PROMISED:
                 extra.append("%s:push:%d:%d" % (d, parent, p))
             extra.append("%s:push:%d:4:bad" % (d, parent))
+        extra.append("%s:push:%d:4:bad2" % (d, f))
         if client:
             # l:ep:9 = update_settings({ENABLE_PUSH: 0, MAX_FRAME_SIZE: 1}), refused as a whole; l:ep:8 = an unrelated, valid
             # update_settings (INITIAL_WINDOW_SIZE) whose acknowledgement changes nothing about push
             extra += ["l:ep:0", "l:ep:1", "l:ep:9", "l:ep:8", "rxack", "rx:push:2:4", "rx:hdr:2:request", "rx:hdr:4:response:es", "l:hdr:2:request",
                       "l:data:2"]
         else:
-            extra += ["rx:ep:0", "rx:ep:1", "l:push:2:4", "l:pushrace:%d:2" % f, "l:pushrace:%d:4" % f]
+            # rx:ep:7 = the client lowers its MAX_CONCURRENT_STREAMS to 1: promises are not counted against it (RFC 7540 5.1.2:
+            # reserved streams do not count), only pushed responses that have started
+            extra += ["rx:ep:0", "rx:ep:1", "rx:ep:7", "l:push:2:4", "l:pushrace:%d:2" % f, "l:pushrace:%d:4" % f]
         self.menu = keep + sorted(set(extra))
 
     def initial(self):
@@ -111,6 +116,8 @@ class Spec(L.Spec):
                 o = h.api("update_settings", {wire.S_ENABLE_PUSH: v})
                 if o.kind == "ok":
                     st.extra["pend"] = st.extra["pend"] + (v,)
+            elif v == 7:
+                o = h.rx([wire.settings([(wire.S_MAX_CONCURRENT_STREAMS, 1)])])
             else:
                 o = h.rx([wire.settings([(wire.S_ENABLE_PUSH, v)])])
                 if o.kind == "ok":
@@ -137,8 +144,8 @@ class Spec(L.Spec):
             return o, info
         if len(parts) >= 2 and parts[1] == "push":
             parent, promised = int(parts[2]), int(parts[3])
-            badlist = parts[-1] == "bad"
-            hdrs = BAD_REQ if badlist else H.REQ
+            badlist = parts[-1] in ("bad", "bad2")
+            hdrs = BAD_REQ2 if parts[-1] == "bad2" else BAD_REQ if badlist else H.REQ
             ps = m.get(parent)
             info = {"dir": parts[0], "kind": "push", "es": False, "sid": parent, "promised": promised, "badlist": badlist,
                     "pstate": ps.state if ps else "idle", "pstatus": m.status(parent),
